@@ -28,7 +28,9 @@ U == << S("1"), S("a"), S("$x"), S("$y"),
         Mp(<<<<"k", S("1")>>>>), Mp(<<<<"k", S("1")>>, <<"l", S("a")>>>>), Mp(<<<<"l", S("a")>>>>),
         Mp(<<<<"k", S("a")>>>>), Mp(<<<<"k", S("$x")>>>>),
         Mp(<<<<"k", Mp(<<<<"l", S("1")>>>>)>>>>), Mp(<<<<"k", Mp(<<<<"l", S("1")>>, <<"m", S("a")>>>>)>>>>),
-        Mp(<<<<"k", A(<<S("1")>>)>>>>), S("1 ") >>
+        Mp(<<<<"k", A(<<S("1")>>)>>>>), S("1 "),
+        \* 18-20: scalars that are different TEXT but the same number as "1" (scalars match by equality of the text)
+        S("1.0"), Mp(<<<<"k", S("1.0")>>>>), S("1e0") >>
 
 Range(f) == {f[x] : x \in DOMAIN f}
 IsExprText(t) == t \in {"$x", "$y"}
